@@ -193,7 +193,7 @@ impl Sim for SimD1 {
         ]
     }
     fn default_runs(&self) -> (u64, u64) {
-        (8_000, 400_000)
+        (2_000_000, 50_000_000)
     }
 
     fn plan(&self, rng: &mut Rng, sub: usize) -> ScenarioD1 {
